@@ -36,6 +36,7 @@ import (
 	"net/http"
 	"os"
 	"path/filepath"
+	"regexp"
 	"sort"
 	"strings"
 	"time"
@@ -120,10 +121,16 @@ type scenario struct {
 	Pred   *pred    `json:"pred,omitempty"`
 	Src    string   `json:"src"`    // reg | dir
 	Tgt    string   `json:"tgt"`    // reg | dir
-	Gzip   int      `json:"gzip"`   // export with ImageWithExportCompress; re-packed archive gzip compressed
+	Gzip   int      `json:"gzip"`   // export with ImageWithExportCompress
 	XRef   int      `json:"xref"`   // export under another name (ImageWithExportRef)
 	XN     string   `json:"xn"`     // the export name carries: tag | dig | tagdig
-	DkGz   int      `json:"dkgz"`   // Docker-save archive with gzip compressed layers
+	DkComp string   `json:"dkcomp"` // Docker-save archive: compression of the layer files none | gzip | zstd | xz
+	DkLS   int      `json:"dkls"`   // Docker-save archive: manifest.json carries LayerSources
+	SFeat  string   `json:"sfeat"`  // feature set of the source registry: default | minimal
+	TFeat  string   `json:"tfeat"`  // feature set of the target registry: default | minimal
+	Chunk  int      `json:"chunk"`  // 1: the client uploads blobs in small chunks (reg.WithBlobSize)
+	RComp  string   `json:"rcomp"`  // compression of the re-packed archive: none | gzip | zstd | xz
+	TarFmt string   `json:"tarfmt"` // header format of the re-packed archive: pax | gnu | ustar
 	Origin string   `json:"origin"` // which generator run made it
 }
 
@@ -214,13 +221,21 @@ func main() {
 			fail(fmt.Errorf("scenario %s: no catalogue record for %v", s.ID, s.Sid))
 		}
 		var key string
-		if s.XN == "" {
-			s.XN = "tag"
+		dflt := func(p *string, v string) {
+			if *p == "" {
+				*p = v
+			}
 		}
+		dflt(&s.XN, "tag")
+		dflt(&s.DkComp, "none")
+		dflt(&s.SFeat, "default")
+		dflt(&s.TFeat, "default")
+		dflt(&s.RComp, "none")
+		dflt(&s.TarFmt, "pax")
 		if c.Kind == "docker" && c.Lp != "dkrest" {
-			key = fmt.Sprintf("dk/%s/%s/gz%d", c.G, c.Sel.By, s.DkGz)
+			key = fmt.Sprintf("dk/%s/%s/%s/ls%d", c.G, c.Sel.By, s.DkComp, s.DkLS)
 		} else {
-			key = fmt.Sprintf("oci/%s/%s/gz%d/x%d/%s", c.G, s.Src, s.Gzip, s.XRef, s.XN)
+			key = fmt.Sprintf("oci/%s/%s/%s/gz%d/x%d/%s", c.G, s.Src, s.SFeat, s.Gzip, s.XRef, s.XN)
 		}
 		g := byKey[key]
 		if g == nil {
@@ -276,16 +291,33 @@ type env struct {
 	rc  *regclient.RegClient
 }
 
-func newEnv() *env {
+// features of a model registry: everything (default) or nothing optional (minimal: no referrers
+// API, no digest header on HEAD / GET, no mount, no single request upload, no deletes).
+func features(name string) simreg.Features {
+	f := simreg.DefaultFeatures()
+	if name == "minimal" {
+		f.TagDelete, f.ManifestDelete, f.BlobDelete = false, false, false
+		f.ReferrersAPI, f.HeadDigest, f.Mount, f.AnonBlobPOSTPut = false, false, false, false
+	}
+	return f
+}
+
+// newEnv: one client and its two model registries.  chunk = 1 makes the client upload every blob of
+// more than 200 bytes in chunks of 128 bytes.
+func newEnv(sfeat, tfeat string, chunk int) *env {
 	e := &env{net: simreg.NewNet()}
-	e.src = e.net.AddHost(srcHost, simreg.DefaultFeatures())
-	e.tgt = e.net.AddHost(tgtHost, simreg.DefaultFeatures())
+	e.src = e.net.AddHost(srcHost, features(sfeat))
+	e.tgt = e.net.AddHost(tgtHost, features(tfeat))
 	e.tgt.Intercept = func(rq *simreg.Request) *simreg.Reply { return strictManifestPut(e.tgt, rq) }
+	regOpts := []reg.Opts{reg.WithHTTPClient(&http.Client{Transport: e.net}), reg.WithDelay(time.Millisecond, 5*time.Millisecond)}
+	if chunk == 1 {
+		regOpts = append(regOpts, reg.WithBlobSize(128, 200))
+	}
 	e.rc = regclient.New(
 		regclient.WithConfigHost(
 			config.Host{Name: srcHost, Hostname: srcHost, TLS: config.TLSDisabled},
 			config.Host{Name: tgtHost, Hostname: tgtHost, TLS: config.TLSDisabled}),
-		regclient.WithRegOpts(reg.WithHTTPClient(&http.Client{Transport: e.net}), reg.WithDelay(time.Millisecond, 5*time.Millisecond)),
+		regclient.WithRegOpts(regOpts...),
 		regclient.WithSlog(slog.New(slog.NewTextHandler(io.Discard, nil))),
 	)
 	return e
@@ -548,14 +580,20 @@ func (d *driver) runOCI(key string, scns []*scenario) ([]*blockOut, error) {
 	if err != nil {
 		return nil, err
 	}
-	e := newEnv()
+	e := newEnv(s0.SFeat, "default", 0)
 	srcRepo := "src/" + c0.G
 	var srcDir string
 	// place the whole graph (also what lies outside the exported closure) in the source
 	if s0.Src == "reg" {
 		for _, n := range g.order {
 			o := g.objs[n]
-			if o.isMan {
+			if o.isMan && o.alg() != "sha256" {
+				// (PutManifest stores under sha256; a manifest addressed otherwise is placed directly)
+				e.src.Repo(srcRepo)
+				e.src.Lock()
+				e.src.Repos[srcRepo].Manifests[o.dig] = simreg.Manifest{MediaType: o.mt, Body: append([]byte(nil), o.raw...)}
+				e.src.Unlock()
+			} else if o.isMan {
 				e.src.PutManifest(srcRepo, "", o.mt, o.raw)
 			} else {
 				e.src.PutBlobAlg(srcRepo, o.alg(), o.raw)
@@ -692,11 +730,11 @@ func (d *driver) runOCI(key string, scns []*scenario) ([]*blockOut, error) {
 			rest = append(rest, s)
 			continue
 		}
-		t := d.importOCI(e, g, c, s, exports, pool)
+		t := d.importOCI(newEnv("default", s.TFeat, s.Chunk), g, c, s, exports, pool)
 		last.Traces = append(last.Traces, t)
 	}
 	if len(rest) > 0 {
-		blocks = append(blocks, d.importDockerRest(e, key, g, exports[0], pool, rest))
+		blocks = append(blocks, d.importDockerRest(key, g, exports[0], pool, rest))
 	}
 	return blocks, nil
 }
@@ -711,7 +749,7 @@ func (d *driver) importOCI(e *env, g *graph, c *catRec, s *scenario, exports []*
 	if len(s.Arch) == 0 {
 		archive = exports[0].raw
 	} else {
-		archive, err = repack(s.Arch, g, pool, s.Gzip == 1)
+		archive, err = repack(s.Arch, g, pool, s.RComp, s.TarFmt)
 		if err != nil {
 			fail(fmt.Errorf("scenario %s: %w", s.ID, err))
 		}
@@ -745,6 +783,20 @@ func (d *driver) importOCI(e *env, g *graph, c *catRec, s *scenario, exports []*
 	if err != nil {
 		fail(err)
 	}
+	// the tag exists already and names something else
+	if c.Sel.Pre == "stale" {
+		stale := &object{name: "stale", isMan: true, mt: mtOCIIndex,
+			raw: []byte(`{"schemaVersion":2,"mediaType":"` + mtOCIIndex + `","manifests":[],"annotations":{"zzverif":"stale"}}`)}
+		stale.dig = "sha256:" + sha256hex(stale.raw)
+		if s.Tgt == "reg" {
+			e.tgt.PutManifest(repo, tag, stale.mt, stale.raw)
+		} else {
+			sub := &graph{name: g.name, objs: map[string]*object{"stale": stale}, order: []string{"stale"}}
+			if err := writeLayout(dir, sub, []rootRec{{N: "stale", Tag: tag}}); err != nil {
+				fail(err)
+			}
+		}
+	}
 	// a target that is not empty: the blobs (and manifests) of the image are placed there directly
 	if c.Sel.Pre == "blobs" || c.Sel.Pre == "all" {
 		sub := &graph{name: g.name, objs: map[string]*object{}, byDig: g.byDig}
@@ -756,7 +808,12 @@ func (d *driver) importOCI(e *env, g *graph, c *catRec, s *scenario, exports []*
 			sub.objs[n] = o
 			sub.order = append(sub.order, n)
 			if s.Tgt == "reg" {
-				if o.isMan {
+				if o.isMan && o.alg() != "sha256" {
+					e.tgt.Repo(repo)
+					e.tgt.Lock()
+					e.tgt.Repos[repo].Manifests[o.dig] = simreg.Manifest{MediaType: o.mt, Body: append([]byte(nil), o.raw...)}
+					e.tgt.Unlock()
+				} else if o.isMan {
 					e.tgt.PutManifest(repo, "", o.mt, o.raw)
 				} else {
 					e.tgt.PutBlobAlg(repo, o.alg(), o.raw)
@@ -848,6 +905,8 @@ func closureOf(nodes map[string]nodeRec, n string) []string {
 	return out
 }
 
+var reFallbackTag = regexp.MustCompile(`^sha(256|512)-[0-9a-f]{64,128}`)
+
 // pushesOf lists the accepted writes of one repository in serving order.
 func pushesOf(log []*simreg.Request, repo string, name func(dig string, body []byte) string) []string {
 	out := []string{}
@@ -864,6 +923,9 @@ func pushesOf(log []*simreg.Request, repo string, name func(dig string, body []b
 			out = append(out, "b:"+name(dig, nil))
 		case "manifest_put":
 			dig := rq.RespHeader.Get("Docker-Content-Digest")
+			if rq.IsTag && reFallbackTag.MatchString(rq.Ref) {
+				continue // referrers fall-back tag kept by the client for a manifest with a subject
+			}
 			if rq.IsTag {
 				out = append(out, "t:"+name(dig, rq.Body))
 			} else {
